@@ -835,9 +835,11 @@ def nested_cases(tier):
                      for p in ((0, 1) if not unit else (0,))
                      for km in ((0, 1, 2) if has_keys else (0,)) for qm in ((0, swap, 2) if unit else (0, swap)) for pa in ((0, 2, 4) if has_par else (0,))]
             inner = [o for o in inner if not (o[1] == 2 and o[2] == 1)]
+            if has_keys and name not in ("meas", "meas_ctrl", "ctrl_outer", "shadow", "loopbody"):
+                inner = [o for o in inner if o[2] == 0 and o[3] == 0 and o[4] in (0, 1)]
             outer = [_opts(reps=rp, use=u, pp=p, km=km, qm=qm, par=pa)
                      for rp in ([R1, R2, RM2, R0] if unit else [R1, R2, R0]) for u in ((1, 2) if not unit else (2,)) for p in ((0, 2) if not unit else (0,))
-                     for km in ((0, 1, 2, 4) if has_keys else (0,)) for qm in ((0, swap) if unit else (0,)) for pa in ((0, 5, 2) if has_par else (0,))]
+                     for km in ((0, 1, 2) if has_keys else (0,)) for qm in ((0, swap) if unit else (0,)) for pa in ((0, 5, 2) if has_par else (0,))]
             tmpls = [0, 1, 2] if has_keys else [0]
         for o1 in inner:
             for tj in tmpls:
@@ -845,8 +847,8 @@ def nested_cases(tier):
                     out.append((bi, ((o1, 0), (o2, tj))))
     # depth 3 on a reduced product
     lv3 = [_opts(), _opts(reps=R2, use=1), _opts(reps=R2, use=2), _opts(pp=1), _opts(km=1), _opts(reps=R2, use=1, pp=2, km=2)]
-    names3 = ["meas_ctrl", "shadow", "ctrl_outer"] if quick else ["meas", "meas_ctrl", "ctrl_outer", "shadow", "twice", "nested", "sympy2", "indexed", "bitmask", "loopbody"]
-    l3 = lv3[:4] if quick else lv3
+    names3 = ["meas_ctrl", "shadow", "ctrl_outer"] if quick else ["meas", "meas_ctrl", "ctrl_outer", "shadow", "nested", "sympy2", "siblings"]
+    l3 = lv3[:4] if quick else lv3[:5]
     for name in names3:
         for o1 in l3:
             for o2 in l3:
@@ -1497,9 +1499,9 @@ def sim_cases(tier):
             ctxs = [0, 1, 2] if rich else [1, 2]
         else:
             reps = [R1, R2, R3, R0, RS]
-            kms = [0, 1, 2, 4]
+            kms = [0, 1, 2, 4] if rich else [0, 1]
             singles = [_opts(reps=rp, use=u, ids=i_, pp=p, km=km, qm=qm)
-                       for rp in reps for u in (1, 2) for i_ in (0, 1) for p in (0, 1) for km in kms for qm in (0, swap)]
+                       for rp in reps for u in (1, 2) for i_ in ((0, 1) if rich else (0,)) for p in (0, 1) for km in kms for qm in ((0, swap) if rich else (0,))]
             singles = [o for o in singles if not (o[1] == 2 and o[2] == 1) and not (o[0] == RS and o[2] == 1)]
             ctxs = [0, 1, 2, 3]
         for o1 in singles:
@@ -1514,8 +1516,8 @@ def sim_cases(tier):
             cx = [1] if not rich else [1, 2]
             sks = (0, 1) if rich else (0,)
         else:
-            in2 = [_opts(reps=rp, use=u, pp=p, km=km) for rp in (R1, R2) for u in (1, 2) for p in (0, 1) for km in (0, 1)]
-            out2 = [_opts(reps=rp, use=u, pp=p, km=km) for rp in (R1, R2) for u in (1, 2) for p in (0, 2) for km in (0, 1)]
+            in2 = [_opts(reps=rp, use=u, pp=p, km=km) for rp in (R1, R2) for u in (1, 2) for p in (0, 1) for km in ((0, 1) if rich else (0,))]
+            out2 = [_opts(reps=rp, use=u, pp=p, km=km) for rp in (R1, R2) for u in (1, 2) for p in (0, 2) for km in ((0, 1) if rich else (0,))]
             tm = [0, 1, 2]
             cx = [1]
             sks = (0, 1)
@@ -1585,7 +1587,7 @@ def loop_cases(tier):
         draws = 3 * BASE_MEAS[name] * inst + sum(1 for opts, tj in levels[1:] if tj == 1)
         return (3 if name == "qutrit" else 2) ** draws
 
-    return [cs for cs in out if est_paths(cs) <= (100 if quick else 1500)]
+    return [cs for cs in out if est_paths(cs) <= (100 if quick else 600)]
 
 
 # ------------------------------------------------------------------------------------------------
